@@ -79,6 +79,7 @@ static void msleep(long ms)
 static int open_fds[1024], n_open;
 static struct stat st012[3];
 static int st012_ok[3];
+static unsigned long long sig_ign, sig_blk;
 
 static void scan_fds(void)
 {
@@ -138,6 +139,7 @@ static void start_record(const char *name, int argc, char **argv)
             bputs("null");
     }
     bputs("]");
+    bprintf(",\"sig_ign\":%llu,\"sig_blk\":%llu", sig_ign, sig_blk);
     char cwd[4096];
     if (getcwd(cwd, sizeof cwd)) { bputs(",\"cwd\":"); bhexs(cwd); }
     const char *w = getenv("VP_WATCH");
@@ -492,9 +494,24 @@ static int do_job(const char *name, int argc, char **argv)
     return code;
 }
 
+/* signal dispositions and mask inherited from the shell, read before this program changes any */
+static unsigned long long sig_ign, sig_blk;
+static void scan_signals(void)
+{
+    for (int sg = 1; sg < 32; sg++) {
+        struct sigaction sa;
+        if (sigaction(sg, NULL, &sa) == 0 && sa.sa_handler == SIG_IGN) sig_ign |= 1ULL << sg;
+    }
+    sigset_t cur;
+    if (sigprocmask(SIG_BLOCK, NULL, &cur) == 0)
+        for (int sg = 1; sg < 32; sg++)
+            if (sigismember(&cur, sg)) sig_blk |= 1ULL << sg;
+}
+
 int main(int argc, char **argv)
 {
     scan_fds();
+    scan_signals();
     const char *name = strrchr(argv[0], '/');
     name = name ? name + 1 : argv[0];
     if (!strcmp(name, "vp_status")) return do_status(name, argc, argv);
